@@ -104,7 +104,11 @@ def dds_hash(x: Any) -> PyHash:
             # (only a hint for error messages: str() refuses integers of more than 4300 digits)
             n = str(k) if abs(k) < 10 ** 18 else "<int>"
         else:
-            n = str(k)
+            try:
+                n = str(k)
+            except Exception:
+                # (only a hint, see above: a tuple key may hold such an integer)
+                n = f"<{type(k).__name__}>"
         return _dds_hash(k, None) + "|" + _dds_hash(v, n)
 
     def _dds_hash0(elt: Any) -> PyHash:
